@@ -191,8 +191,10 @@ theorem endianByte_ne (e : Endian) : (endianByte e = 108 ↔ e = .little) ∧ (e
 /-- The strict decoder accepts the encoding of every valid message and returns the message. -/
 theorem decodeMsg_encodeMsg (m : SpecMsg) (hm : m.valid = true) : decodeMsg (encodeMsg m) = some m := by
   have hm' := hm
-  simp only [SpecMsg.valid, Bool.and_eq_true, decide_eq_true_eq] at hm
-  obtain ⟨⟨⟨⟨⟨hty, hfl⟩, hse⟩, hfs⟩, har⟩, hlen⟩ := hm
+  have hsz : m.sized = true := by
+    simp only [SpecMsg.valid, Bool.and_eq_true] at hm; exact hm.1.1
+  simp only [SpecMsg.sized, Bool.and_eq_true, decide_eq_true_eq] at hsz
+  obtain ⟨⟨⟨⟨⟨hty, hfl⟩, hse⟩, hfs⟩, har⟩, hlen⟩ := hsz
   have hbl : m.body.length < 256 ^ 4 := by
     have := encodeMsg_length m
     simp only [maxMessage] at hlen
@@ -239,13 +241,19 @@ theorem decodeMsg_encodeMsg (m : SpecMsg) (hm : m.valid = true) : decodeMsg (enc
 
 end Spec
 
-theorem SpecMsg.encodable_of_valid (m : SpecMsg) (hm : m.valid = true) : m.encodable = true := by
-  simp only [SpecMsg.valid, Bool.and_eq_true, decide_eq_true_eq] at hm
+theorem SpecMsg.sized_of_valid (m : SpecMsg) (hm : m.valid = true) : m.sized = true := by
+  simp only [SpecMsg.valid, Bool.and_eq_true] at hm; exact hm.1.1
+
+theorem SpecMsg.encodable_of_sized (m : SpecMsg) (hm : m.sized = true) : m.encodable = true := by
+  simp only [SpecMsg.sized, Bool.and_eq_true, decide_eq_true_eq] at hm
   obtain ⟨⟨⟨⟨⟨hty, hfl⟩, hse⟩, hfs⟩, har⟩, hlen⟩ := hm
   have := Spec.encodeMsg_length m
   simp only [Spec.maxMessage] at hlen
   simp only [Spec.maxArray] at har
   simp only [SpecMsg.encodable, Bool.and_eq_true, decide_eq_true_eq]
   exact ⟨⟨⟨⟨⟨by omega, by omega⟩, by omega⟩, by omega⟩, by omega⟩, hfs⟩
+
+theorem SpecMsg.encodable_of_valid (m : SpecMsg) (hm : m.valid = true) : m.encodable = true :=
+  SpecMsg.encodable_of_sized m (SpecMsg.sized_of_valid m hm)
 
 end Txdbus.Msg
